@@ -200,3 +200,58 @@ func specRunAll(in *bufio.Scanner, out *bufio.Writer) {
 func init() {
 	props["spec"] = propCmd{gen: func(int64, int, string, *bufio.Writer) {}, run: specRunAll}
 }
+
+// reuse (C10): one SpecValidator validating several documents in a row, each compared by the caller with a fresh validator
+type reuseCase struct {
+	ID   int               `json:"id"`
+	Docs []json.RawMessage `json:"docs"`
+	Cont bool              `json:"cont"`
+}
+
+func reuseRun(in *bufio.Scanner, out *bufio.Writer) {
+	for in.Scan() {
+		var c reuseCase
+		if err := json.Unmarshal(in.Bytes(), &c); err != nil {
+			continue
+		}
+		rec := map[string]interface{}{"id": c.ID}
+		var reused, fresh []specRun
+		func() {
+			var v *validate.SpecValidator
+			for _, raw := range c.Docs {
+				sc := specCase{Doc: raw}
+				fresh = append(fresh, runSpec(&sc, c.Cont, true))
+				r := func() (r specRun) {
+					defer func() {
+						if x := recover(); x != nil {
+							r = specRun{Outcome: "panic", Panic: panicClass(x) + ": " + fmt.Sprint(x), Stack: shortStack(), Errors: []string{}, Warnings: []string{}, ErrWarns: []string{}}
+							validate.VerifReset(validate.VerifOff, false)
+							v = nil
+						}
+					}()
+					doc, err := loadDoc(&sc)
+					if err != nil {
+						return specRun{Outcome: "unloadable", Panic: err.Error(), Errors: []string{}, Warnings: []string{}, ErrWarns: []string{}}
+					}
+					if v == nil {
+						v = validate.NewSpecValidator(doc.Schema(), strfmt.Default)
+						v.Options.ContinueOnErrors = c.Cont
+						v.Options.StrictPathParamUniqueness = true
+					}
+					errs, warns := v.Validate(doc)
+					return specRun{Outcome: "ok", Valid: errs.IsValid(), Errors: texts(errs.Errors), Warnings: texts(warns.Errors), ErrWarns: texts(errs.Warnings)}
+				}()
+				reused = append(reused, r)
+			}
+		}()
+		rec["fresh"] = fresh
+		rec["reused"] = reused
+		b, _ := json.Marshal(rec)
+		out.Write(b)
+		out.WriteString("\n")
+	}
+}
+
+func init() {
+	props["reuse"] = propCmd{gen: func(int64, int, string, *bufio.Writer) {}, run: reuseRun}
+}
